@@ -439,4 +439,257 @@ theorem getNamespaceDataAux_data {H : HashFn} {e : Eds} {dah : Dah} {ns : Bytes}
                 rw [scanRow_eq_filter ns shares hsorted]
 
 
+/-! ## Relative collision-freeness (audit repair)
+
+`HashOK` (injective with 32-byte output) is contradictory; the lemmas above that take it are vacuous and are kept only
+until every dependent file is ported.  The versions below assume collision-freeness on a set `S` of inputs that contains
+the byte strings hashed for the square's trees (`edsInputs`) and by the verifier (`vcnInputs`). -/
+
+/-- the inputs hashed by `NamespaceData::verify` over the given rows -/
+def nsDataInputs (H : HashFn) (rows : List RowNsData) (ns : Bytes) : List Bytes :=
+  rows.flatMap (fun d => vcnInputs H d.proof (d.shares.map Share.data) ns)
+
+theorem contains_char_on {H : HashFn} {S : Bytes → Prop} (hi : NoCollOn H S) (hE : S []) {L : List NsHash}
+    {root : NsHash} {ns : Bytes} (hne : L ≠ []) (al : AllLeafOn H S L) (hs : SortedNs L)
+    (hroot : computeRoot H true L = .ok root) (hT : ∀ y ∈ rootInputs H true (L.length + 1) L, S y)
+    (hns : ns.length = NS_SIZE) :
+    root.contains H ns = true ↔
+      (∃ x ∈ L, leB x.minNs ns = true) ∧
+      ((∀ x ∈ L, x.minNs = maxNsId) ∨ ∃ x ∈ L, x.minNs ≠ maxNsId ∧ leB ns x.minNs = true) := by
+  have R := computeRoot_range hne (AllLeaf.leafNs al.allLeaf) hs hroot
+  have hnotempty : root.isEmptyRoot H = false := by
+    unfold NsHash.isEmptyRoot
+    have := computeRoot_ne_empty_on hi hE hne al hT hroot
+    simpa using this
+  unfold NsHash.contains
+  simp only [hnotempty, Bool.not_false, Bool.and_true, Bool.and_eq_true]
+  constructor
+  · rintro ⟨h1, h2⟩
+    refine ⟨?_, ?_⟩
+    · obtain ⟨x, hx, hxe⟩ := R.minMem
+      exact ⟨x, hx, by rw [← hxe]; exact h1⟩
+    · by_cases hall : ∀ x ∈ L, x.minNs = maxNsId
+      · exact Or.inl hall
+      · right
+        have hex : ∃ x ∈ L, x.minNs ≠ maxNsId := by
+          apply Classical.byContradiction
+          intro hno
+          apply hall
+          intro x hx
+          apply Classical.byContradiction
+          intro hne'
+          exact hno ⟨x, hx, hne'⟩
+        obtain ⟨y, hy, hyn, hyl⟩ := R.maxMemNon hex
+        exact ⟨y, hy, hyn, leB_trans h2 hyl⟩
+  · rintro ⟨⟨x, hx, hxl⟩, h2⟩
+    refine ⟨leB_trans (R.minLe x hx) hxl, ?_⟩
+    rcases h2 with hall | ⟨y, hy, hyn, hyl⟩
+    · rw [R.maxAll hall]; exact leB_maxNsId NS_SIZE ns hns
+    · exact leB_trans hyl (R.maxGe y hy hyn)
+
+/-- equal leaf-hash lists for one namespace have equal data -/
+theorem map_hashLeaf_data_on {H : HashFn} {S : Bytes → Prop} (hi : NoCollOn H S) {ns : Bytes} :
+    ∀ {l : List Share} {ds : List Bytes},
+    (∀ sh ∈ l, sh.ns = ns) → (∀ sh ∈ l, S (leafInput sh.ns sh.data)) → (∀ d ∈ ds, S (leafInput ns d)) →
+    l.map (Share.leafHash H) = ds.map (hashLeaf H ns) → l.map Share.data = ds := by
+  intro l
+  induction l with
+  | nil => intro ds _ _ _ h; cases ds with
+    | nil => rfl
+    | cons a t => simp at h
+  | cons a t ih =>
+    intro ds hn hl hds h
+    cases ds with
+    | nil => simp at h
+    | cons d dt =>
+      simp only [List.map_cons, List.cons.injEq] at h ⊢
+      refine ⟨?_, ih (fun s hs => hn s (by simp [hs])) (fun s hs => hl s (by simp [hs]))
+        (fun x hx => hds x (by simp [hx])) h.2⟩
+      have h1 := h.1
+      unfold Share.leafHash at h1
+      have ha := hl a (by simp)
+      rw [hn a (by simp)] at h1 ha
+      exact (hashLeaf_inj_on hi rfl ha (hds d (by simp)) (congrArg NsHash.hash h1)).2
+
+/-- `row_facts` with the memberships of the hashed inputs -/
+theorem row_facts_on {H : HashFn} {e : Eds} {dah : Dah} (hd : Dah.ofEds H e = .ok dah)
+    (hsz : ∀ sh ∈ e.shares, NS_SIZE ≤ sh.data.length) {row : Nat} (hrow : row < e.width)
+    {S : Bytes → Prop} (hS : ∀ y ∈ edsInputs H e, S y) :
+    ∃ shares root, e.axis? .row row = some shares ∧ dah.rowRoot? row = some root ∧ shares ≠ [] ∧
+      computeRoot H true (shares.map (Share.leafHash H)) = .ok root ∧
+      AllLeafOn H S (shares.map (Share.leafHash H)) ∧ SortedNs (shares.map (Share.leafHash H)) ∧
+      (∀ sh ∈ shares, sh ∈ e.shares) ∧
+      (∀ y ∈ rootInputs H true ((shares.map (Share.leafHash H)).length + 1) (shares.map (Share.leafHash H)), S y) ∧
+      (∀ sh ∈ shares, S (leafInput sh.ns sh.data)) := by
+  obtain ⟨shares, root, hax, hroot?, hne, hcr, _, hs, hmem⟩ := row_facts hd hsz hrow
+  have hin : ∀ y ∈ axisInputs H e .row row, S y := fun y hy => hS y (axisInputs_mem_eds hrow hy)
+  refine ⟨shares, root, hax, hroot?, hne, hcr, ?_, hs, hmem, ?_, ?_⟩
+  · exact (axis_allLeafOn hax (fun sh hsh => hsz sh (hmem sh hsh))).mono hin
+  · exact fun y hy => hin y (axis_rootInputs_mem hax hy)
+  · intro sh hsh
+    apply hin
+    unfold axisInputs; rw [hax]
+    exact List.mem_append_left _ (List.mem_map.mpr ⟨sh, hsh, rfl⟩)
+
+/-- **soundness of `RowNamespaceData::verify`** for a row whose root range covers the namespace; the hash collision-free
+    on `S` ⊇ the square's inputs and the inputs of this verification -/
+theorem rowVerify_sound_on {H : HashFn} {S : Bytes → Prop} (hk : HashOKOn H S) {e : Eds} {dah : Dah}
+    (hd : Dah.ofEds H e = .ok dah) (hsz : ∀ sh ∈ e.shares, NS_SIZE ≤ sh.data.length) {d : RowNsData} {ns : Bytes}
+    {row : Nat} (hS : ∀ y ∈ edsInputs H e, S y)
+    (hV : ∀ y ∈ vcnInputs H d.proof (d.shares.map Share.data) ns, S y)
+    (hns : ns.length = NS_SIZE) (hp : ProofOK d.proof) (hcont : dah.rowContains? H row ns = some true)
+    (h : rowVerify H d ns row dah = .ok ()) :
+    ∃ shares, e.axis? .row row = some shares ∧
+      d.shares.map Share.data = (shares.filter (fun sh => sh.ns == ns)).map Share.data := by
+  have hrow : row < e.width := by
+    obtain ⟨hrl, _, _, _⟩ := dah_ofEds_roots hd
+    unfold Dah.rowContains? Dah.rowRoot? at hcont
+    cases hg : dah.rowRoots[row]? with
+    | none => simp [hg] at hcont
+    | some r => have := (List.getElem?_eq_some_iff.mp hg).1; omega
+  obtain ⟨shares, root, hax, hroot?, hne, hcr, al, hs, _, hT, hL⟩ := row_facts_on hd hsz hrow hS
+  refine ⟨shares, hax, ?_⟩
+  have hc : root.contains H ns = true := by
+    unfold Dah.rowContains? at hcont
+    rw [hroot?] at hcont
+    simpa using hcont
+  unfold rowVerify at h
+  split at h
+  · cases h
+  · rename_i hw
+    have hwpt : (d.shares.map Share.data).isEmpty = d.proof.isAbsence := by
+      cases h1 : d.shares.isEmpty <;> cases h2 : d.proof.isAbsence <;> simp [h1, h2] at hw ⊢ <;>
+        (cases hh : d.shares <;> simp [hh] at h1 ⊢)
+    simp only [hroot?] at h
+    cases hv : luminaVerifyCompleteNamespace H d.proof root (d.shares.map Share.data) ns with
+    | error er => simp [hv] at h
+    | ok u =>
+      have hv' := luminaVCN_ok hv
+      obtain ⟨w1, w2, w3, w4⟩ := hp
+      have := vcn_sound_on hk (hS [] (nil_mem_edsInputs H e)) (by simpa using hne) al hs hcr hT hV w1 w2 w3 w4 hns
+        hwpt hc hv'
+      rw [List.filter_map] at this
+      have hfil : ∀ sh ∈ shares.filter ((fun x => x.minNs == ns) ∘ Share.leafHash H), sh.ns = ns := by
+        intro sh hsh
+        have := (List.mem_filter.mp hsh).2
+        simpa [Share.leafHash, hashLeaf] using this
+      have hd := map_hashLeaf_data_on hk.inj hfil (fun sh hsh => hL sh (List.mem_filter.mp hsh).1)
+        (fun x hx => hV _ (List.mem_append_left _ (List.mem_map.mpr ⟨x, hx, rfl⟩))) (by rw [this, List.map_map])
+      rw [← hd]
+      congr 1
+
+theorem verifyRows_sound_on {H : HashFn} {S : Bytes → Prop} (hk : HashOKOn H S) {e : Eds} {dah : Dah}
+    (hd : Dah.ofEds H e = .ok dah) (hsz : ∀ sh ∈ e.shares, NS_SIZE ≤ sh.data.length) {ns : Bytes}
+    (hns : ns.length = NS_SIZE) (hS : ∀ y ∈ edsInputs H e, S y) :
+    ∀ (rows : List RowNsData) (idxs : List Nat), rows.length = idxs.length →
+      (∀ y ∈ nsDataInputs H rows ns, S y) →
+      (∀ r ∈ idxs, dah.rowContains? H r ns = some true) → (∀ d ∈ rows, ProofOK d.proof) →
+      verifyRows H ns dah rows idxs = .ok () →
+      rows.map (fun d => d.shares.map Share.data) = idxs.map (rowNsData e ns) := by
+  intro rows
+  induction rows with
+  | nil => intro idxs hl _ _ _ _; cases idxs with
+    | nil => rfl
+    | cons a t => simp at hl
+  | cons d ds ih =>
+    intro idxs hl hV hc hp h
+    cases idxs with
+    | nil => simp at hl
+    | cons r rs =>
+      unfold verifyRows at h
+      cases hv : rowVerify H d ns r dah with
+      | error er => simp [hv] at h
+      | ok u =>
+        simp only [hv] at h
+        have hV1 : ∀ y ∈ vcnInputs H d.proof (d.shares.map Share.data) ns, S y := fun y hy =>
+          hV y (by unfold nsDataInputs; rw [List.flatMap_cons]; exact List.mem_append_left _ hy)
+        have hV2 : ∀ y ∈ nsDataInputs H ds ns, S y := fun y hy =>
+          hV y (by unfold nsDataInputs; rw [List.flatMap_cons]; exact List.mem_append_right _ hy)
+        obtain ⟨shares, hax, hdat⟩ := rowVerify_sound_on hk hd hsz hS hV1 hns (hp d (by simp)) (hc r (by simp)) hv
+        simp only [List.map_cons, List.cons.injEq]
+        refine ⟨?_, ih rs (by simpa using hl) hV2 (fun x hx => hc x (by simp [hx])) (fun x hx => hp x (by simp [hx])) h⟩
+        unfold rowNsData; rw [hax]; exact hdat
+
+/-- **model-level soundness of `NamespaceData::verify`** -/
+theorem verify_sound_model_on {H : HashFn} {S : Bytes → Prop} (hk : HashOKOn H S) {e : Eds} {dah : Dah}
+    (hd : Dah.ofEds H e = .ok dah) (hsz : ∀ sh ∈ e.shares, NS_SIZE ≤ sh.data.length) {ns : Bytes}
+    (hns : ns.length = NS_SIZE) {rows : List RowNsData} (hS : ∀ y ∈ edsInputs H e, S y)
+    (hV : ∀ y ∈ nsDataInputs H rows ns, S y) (hp : ∀ d ∈ rows, ProofOK d.proof)
+    (h : verify H rows ns dah = .ok ()) :
+    rows.map (fun d => d.shares.map Share.data) =
+      ((List.range e.width).filter (fun r => (dah.rowContains? H r ns).getD false)).map (rowNsData e ns) := by
+  obtain ⟨hrl, _, _, _⟩ := dah_ofEds_roots hd
+  unfold verify at h
+  split at h
+  · cases h
+  · split at h
+    · cases h
+    · simp only [hrl] at h
+      by_cases hlen : (List.filter (fun r => (dah.rowContains? H r ns).getD false) (List.range e.width)).length = rows.length
+      · simp only [hlen, ne_eq, not_true_eq_false, ↓reduceIte] at h
+        refine verifyRows_sound_on hk hd hsz hns hS rows _ hlen.symm hV ?_ hp h
+        intro r hr
+        have := (List.mem_filter.mp hr).2
+        cases hc : dah.rowContains? H r ns with
+        | none => simp [hc] at this
+        | some b => simp [hc] at this; rw [this]
+      · simp [hlen] at h
+
+theorem rowCovers_eq_on {H : HashFn} {S : Bytes → Prop} (hk : HashOKOn H S) {e : Eds} (hsq : SquareShape e)
+    {dah : Dah} (hd : Dah.ofEds H e = .ok dah) (hS : ∀ y ∈ edsInputs H e, S y) {row : Nat} (hrow : row < e.width)
+    {ns : Bytes} (hns : ns.length = NS_SIZE) :
+    rowCovers e.width (rawSquare e) row ns = (dah.rowContains? H row ns).getD false := by
+  obtain ⟨shares, root, hax, hroot?, hne, hcr, al, hs, _, hT, _⟩ := row_facts_on hd hsq.size hrow hS
+  have hcc := contains_char_on hk.inj (hS [] (nil_mem_edsInputs H e)) (by simpa using hne) al hs hcr hT hns
+  unfold Dah.rowContains?
+  rw [hroot?]
+  simp only [Option.map_some, Option.getD_some]
+  rw [Bool.eq_iff_iff, hcc]
+  unfold rowCovers
+  rw [rowShares_eq hsq hrow hax]
+  simp only [List.map_map, Bool.and_eq_true, Bool.or_eq_true, List.any_eq_true, List.all_eq_true, List.mem_map,
+    Function.comp_apply, leBytes_eq, beq_iff_eq, bne_iff_ne, ne_eq, specParity_eq, Share.leafHash, hashLeaf,
+    forall_exists_index, and_imp, forall_apply_eq_imp_iff₂]
+  constructor
+  · rintro ⟨⟨x, ⟨a, ha, rfl⟩, h1⟩, h2⟩
+    refine ⟨⟨_, ⟨a, ha, rfl⟩, h1⟩, ?_⟩
+    rcases h2 with h2 | ⟨x, ⟨b, hb, rfl⟩, h3, h4⟩
+    · exact Or.inl h2
+    · exact Or.inr ⟨_, ⟨b, hb, rfl⟩, h3, h4⟩
+  · rintro ⟨⟨x, ⟨a, ha, rfl⟩, h1⟩, h2⟩
+    refine ⟨⟨_, ⟨a, ha, rfl⟩, h1⟩, ?_⟩
+    rcases h2 with h2 | ⟨x, ⟨b, hb, rfl⟩, h3, h4⟩
+    · exact Or.inl h2
+    · exact Or.inr ⟨_, ⟨b, hb, rfl⟩, h3, h4⟩
+
+/-- the spec's expected answer, computed from the model's rows -/
+theorem expected_eq'_on {H : HashFn} {S : Bytes → Prop} (hk : HashOKOn H S) {e : Eds} (hsq : SquareShape e)
+    {dah : Dah} (hd : Dah.ofEds H e = .ok dah) (hS : ∀ y ∈ edsInputs H e, S y) {ns : Bytes}
+    (hns : ns.length = NS_SIZE) :
+    expected e.width (rawSquare e) ns =
+      ((List.range e.width).filter (fun r => (dah.rowContains? H r ns).getD false)).map (fun r => (r, rowNsData e ns r)) := by
+  unfold expected
+  rw [filterMap_ite (fun r => rowCovers e.width (rawSquare e) r ns)
+    (fun r => (r, ((rowShares e.width (rawSquare e) r).filter (fun p => p.1 == ns)).map Prod.snd))]
+  have hf : (List.range e.width).filter (fun r => rowCovers e.width (rawSquare e) r ns) =
+      (List.range e.width).filter (fun r => (dah.rowContains? H r ns).getD false) := by
+    apply List.filter_congr
+    intro r hr
+    exact rowCovers_eq_on hk hsq hd hS (List.mem_range.mp hr) hns
+  rw [hf]
+  apply List.map_congr_left
+  intro r hr
+  have hr' : r < e.width := List.mem_range.mp (List.mem_filter.mp hr).1
+  obtain ⟨shares, _, hax, _⟩ := row_facts hd hsq.size hr'
+  unfold rowNsData
+  rw [hax, rowShares_eq hsq hr' hax, List.filter_map, List.map_map]
+  rfl
+
+theorem expected_eq_on {H : HashFn} {S : Bytes → Prop} (hk : HashOKOn H S) {e : Eds} (hsq : SquareShape e)
+    {dah : Dah} (hd : Dah.ofEds H e = .ok dah) (hS : ∀ y ∈ edsInputs H e, S y) {ns : Bytes}
+    (hns : ns.length = NS_SIZE) :
+    (expected e.width (rawSquare e) ns).map Prod.snd =
+      ((List.range e.width).filter (fun r => (dah.rowContains? H r ns).getD false)).map (rowNsData e ns) := by
+  rw [expected_eq'_on hk hsq hd hS hns, List.map_map]; rfl
+
 end Lumina.Proofs.NsData
